@@ -105,7 +105,7 @@ class C12(Profile):
     wall_cap = {'quick': 1200, 'thorough': 6 * 3600}
     probes = ['optimizer_filters', 'attached_to_source', 'attached_to_composite', 'composite_facade', 'empty_result',
               'nonempty_result', 'timestamp_respelled', 'datetime_value', 'contradictory_type_filters', 'law_intersection',
-              'law_monotone', 'get_with_attached_filter', 'dotted_path', 'duplicate_filter', 'store_changed_between_queries', 'coarse_file_timestamps']
+              'law_monotone', 'get_with_attached_filter', 'dotted_path', 'duplicate_filter', 'store_changed_between_queries', 'coarse_file_timestamps', 'nested_composites_both_filtered']
     rule = ('plans: a population of 3-25 object versions added identically to a MemoryStore and a FileSystemStore (simulated disk), then '
             '30-80 queries whose filters are generated from the population (all 8 operators, 17 property paths, hits and near misses, '
             'type/id optimiser mixes) and delivered as argument / attached to the source / attached to a composite; '
@@ -165,6 +165,8 @@ class C12(Profile):
                   'filters': fs, 'ls_key': rng.randrange(1000), 'tag': tag, 'law': rng.choice([None, None, 'split', 'grow'])}
             if op['op'] != 'query':
                 op['k'] = rng.randrange(n_ids)
+            if op['facade'] == 'C' and rng.random() < 0.3:
+                op['nest'] = True
             ops.append(op)
         if rng.random() < 0.4 and len(items) > 2:
             # history: part of the population arrives BETWEEN the queries (in the original order), so that queries run
@@ -198,6 +200,7 @@ class C12(Profile):
     def execute(self, plan, world):
         import stix2
         sw = SW.StoreWorld(world, plan, 'C12')
+        self.world = world
         self.raw = {'M': {}, 'F': {}}
         cds = stix2.CompositeDataSource()
         cds.add_data_sources([sw.M.source, sw.F.source])
@@ -258,8 +261,26 @@ class C12(Profile):
             v = tsparse.fmt(us, digits=6)
         return (f['p'], f['o'], v)
 
-    def run(self, sw, facade, arg, src, comp, what, sid=None):
+    def run(self, sw, facade, arg, src, comp, what, sid=None, nest=False):
         """Attach, call, detach.  Returns Outcome."""
+        if nest and facade == 'C':
+            # two layers: the `src` filters sit on an INNER composite of the two sources, the `comp` filters on the outer one
+            # that federates it; every one of them applies
+            s = sw.stix2
+            inner = s.CompositeDataSource()
+            inner.add_data_sources([sw.M.source, sw.F.source])
+            for f in src:
+                call(inner.filters.add, f)
+            outer = s.CompositeDataSource()
+            outer.add_data_sources([inner])
+            for f in comp:
+                call(outer.filters.add, f)
+            self.world.probe('nested_composites_both_filtered' if src and comp else 'nested_composites')
+            if what == 'query':
+                return call(outer.query, list(arg))
+            if what == 'get':
+                return call(outer.get, sid)
+            return call(outer.all_versions, sid)
         sources = {'M': [sw.M.source], 'F': [sw.F.source], 'C': [sw.M.source, sw.F.source]}[facade]
         if facade != 'C':
             src = src + comp
@@ -307,7 +328,7 @@ class C12(Profile):
             triples = [self.ref_triple(f) for f in fs if f.get('via', 'arg') != 'arg']
             arg = []
         sw.disk.begin_op(op.get('ls_key', 0))
-        out = self.run(sw, facade, arg, src, comp, what, sid)
+        out = self.run(sw, facade, arg, src, comp, what, sid, nest=bool(op.get('nest')))
         sw.disk.end_op()
         if src:
             world.probe('attached_to_source')
